@@ -121,12 +121,10 @@ func (c *Ctx) define(t *Term, prefix string) *Term {
 	}
 	n := c.fresh(prefix, t.Sort)
 	c.defs = append(c.defs, fmt.Sprintf("(assert (= %s %s))", n.Op, renderTerm(t)))
-	if t.Sort == SInt {
-		if c.defOf == nil {
-			c.defOf = map[string]*Term{}
-		}
-		c.defOf[n.Op] = t
+	if c.defOf == nil {
+		c.defOf = map[string]*Term{}
 	}
+	c.defOf[n.Op] = t
 	return n
 }
 
